@@ -3,6 +3,7 @@ package c06
 
 import (
 	"context"
+	"database/sql"
 	"errors"
 	"fmt"
 	"os"
@@ -46,9 +47,9 @@ var worldCfg = vworld.Config{
 // sorted implementation skips such a row and must still commit the other rows of the blob.
 var longValue = strings.Repeat("long value ", 70)
 
-func newKV(t *rapid.T, backend string) (kv sorted.KeyValue, cleanup func()) {
+func newKV(t *rapid.T, backend string) (kv sorted.KeyValue, file string, cleanup func()) {
 	if backend == "memory" {
-		return sorted.NewMemoryKeyValue(), func() {}
+		return sorted.NewMemoryKeyValue(), "", func() {}
 	}
 	// file-backed KVs fsync on every commit: keep them on tmpfs when there is one,
 	// so that a loaded disk does not dominate the run time.
@@ -61,16 +62,41 @@ func newKV(t *rapid.T, backend string) (kv sorted.KeyValue, cleanup func()) {
 		t.Fatalf("C06 infrastructure: %v", err)
 	}
 	typ := map[string]string{"leveldb": "leveldb", "kvfile": "kv", "sqlite": "sqlite"}[backend]
-	file := filepath.Join(dir, "index."+typ)
+	file = filepath.Join(dir, "index."+typ)
 	kv, err = sorted.NewKeyValue(jsonconfig.Obj{"type": typ, "file": file})
 	if err != nil {
 		os.RemoveAll(dir)
 		t.Fatalf("C06 infrastructure: sorted.NewKeyValue(%s): %v", typ, err)
 	}
-	return kv, func() {
+	return kv, file, func() {
 		kv.Close()
 		os.RemoveAll(dir)
 	}
+}
+
+// lockSQLite takes the write lock of an SQLite index file from a second connection, as another process
+// working on the file (a reindex, pk dumprows, a backup) does: a statement of a batch then fails with
+// "database is locked" while the roll-back of the batch succeeds.
+func lockSQLite(file string) (release func(), err error) {
+	db, err := sql.Open("sqlite", file)
+	if err != nil {
+		return nil, err
+	}
+	conn, err := db.Conn(ctxbg)
+	if err != nil {
+		db.Close()
+		return nil, err
+	}
+	if _, err := conn.ExecContext(ctxbg, "BEGIN IMMEDIATE"); err != nil {
+		conn.Close()
+		db.Close()
+		return nil, err
+	}
+	return func() {
+		conn.ExecContext(ctxbg, "ROLLBACK")
+		conn.Close()
+		db.Close()
+	}, nil
 }
 
 type mismatch struct {
@@ -138,7 +164,7 @@ func liveVsReopened(t *rapid.T, cfg vworld.Config, alwaysCorpus bool) {
 		if withCorpus {
 			cfgName = "corpus"
 		}
-		kv, cleanup := newKV(t, backend)
+		kv, kvFile, cleanup := newKV(t, backend)
 		defer cleanup()
 		var fk *flakyKV
 		failStep := -1
@@ -146,6 +172,10 @@ func liveVsReopened(t *rapid.T, cfg vworld.Config, alwaysCorpus bool) {
 			fk = &flakyKV{KeyValue: kv}
 			kv = fk
 			failStep = rapid.IntRange(0, len(ev)-1).Draw(t, "commitFaultAtStep")
+		}
+		lockStep := -1
+		if backend == "sqlite" && rapid.IntRange(0, 2).Draw(t, "sqliteLocked") != 0 {
+			lockStep = rapid.IntRange(0, len(ev)-1).Draw(t, "sqliteLockedAtStep")
 		}
 		live, err := vworld.NewEnv(w, kv, nil)
 		if err != nil {
@@ -191,6 +221,26 @@ func liveVsReopened(t *rapid.T, cfg vworld.Config, alwaysCorpus bool) {
 					if d := compareWithReopened(w, live, lc, withCorpus); d != "" {
 						fail(k, "right after ReceiveBlob(%s) failed with %v (its row commit was refused once): %s", w.Blobs[e.I].Label, derr, d)
 					}
+				}
+			}
+			if k == lockStep {
+				// another connection holds the file's write lock during this delivery: the batch's first
+				// statement fails, the batch is rolled back. Whether or not ReceiveBlob reports it, the running
+				// index and corpus must be what the rows say; the lock is released and the client retries.
+				release, lerr := lockSQLite(kvFile)
+				if lerr != nil {
+					t.Fatalf("C06 infrastructure: second SQLite connection: %v", lerr)
+				}
+				derr := live.Deliver(e.I)
+				release()
+				live.Await()
+				if derr != nil {
+					evid.R.Label("fault/receive-failed-on-a-locked-sqlite-file-then-retried")
+				} else {
+					evid.R.Label("fault/receive-succeeded-on-a-locked-sqlite-file")
+				}
+				if d := compareWithReopened(w, live, lc, withCorpus); d != "" {
+					fail(k, "right after ReceiveBlob(%s) returned %v while another connection held the SQLite write lock: %s", w.Blobs[e.I].Label, derr, d)
 				}
 			}
 			if err := live.Deliver(e.I); err != nil {
